@@ -72,6 +72,11 @@ CLAIMS = {
         technique='differential symbolic execution (CrossHair/z3): strict vs non-strict compilation of the same template; reachability of planted invalid expressions decided by the reference interpreter over symbolic bindings',
         text='Per enumerated template the solver decides for all bindings: valid templates render identically under both settings; a planted invalid expression is reported at construction (strict) resp. at render time iff reached, with the same token and offset.',
         note=G_NOTE),
+    'C20': dict(
+        engine='X', level='model_checking', design_ref='DESIGN.md 4 C20',
+        technique='symbolic execution (CrossHair/z3) of the text-mode front end and of compiled text templates with symbolic source characters / inserted values',
+        text='Text-mode tokenizer and front end decided over all code points of each source shape; rendered output of text templates decided for all inserted values of k symbolic code points.',
+        note='Trusted: CrossHair models + chsym plugin; the ${...} delimiting is covered by the C06 kernel.'),
     'C03': dict(
         engine='X+Z', level='model_checking', design_ref='DESIGN.md 4 C03',
         technique='symbolic execution (CrossHair/z3) of iter_xml/match_tag/emitters on shape-enumerated character-symbolic strings; z3 regex inclusion from the live lexer pattern',
